@@ -200,6 +200,23 @@ func sequentialCase(idx int64, r *rand.Rand) {
 			return
 		}
 	}
+	if ly.name == "default+lookup" {
+		// the total is exhausted by partition "a"; the unknown bucket (a zero-fraction bin of its own) must still have
+		// its share of 1 free - unless completions of unknown-key requests did not give their bin unit back
+		l1, ok1 := ly.lim.Acquire(keyCtx("zz"))
+		l2, ok2 := ly.lim.Acquire(keyCtx("zz"))
+		if l1 != nil {
+			l1.OnIgnore()
+		}
+		if l2 != nil {
+			l2.OnIgnore()
+		}
+		rt.Count("unknown_bin_conservation_probes", 1)
+		if !ok1 || ok2 {
+			fail("unknown-bin-count-not-zero-after-all-completed", rt.J{"first_unknown_acquire_granted": ok1, "second_granted": ok2})
+			return
+		}
+	}
 	for _, l := range again {
 		l.OnIgnore()
 	}
@@ -226,7 +243,7 @@ func worldCase(t *testing.T, idx int64, r *rand.Rand) {
 	var ops []string
 	checks, giveups, sameInstant := 0, 0, 0
 	bad := false
-	synctest.Test(t, func(t *testing.T) {
+	bubble(t, func(t *testing.T) {
 		w := blk.NewWorld(k, capacity)
 		held := w.Hold(capacity)
 		if yields > 0 {
@@ -520,7 +537,7 @@ func poolCase(t *testing.T, idx int64, r *rand.Rand) {
 	T := 50 * time.Millisecond
 	var verdict string
 	detail := rt.J{}
-	synctest.Test(t, func(t *testing.T) {
+	bubble(t, func(t *testing.T) {
 		var p core.Limiter
 		if r.IntN(2) == 0 {
 			fp, err := pool.NewFixedPool("c02", ord, lim, -1, -1, -1, -1, 4, T, nil, nil)
@@ -620,4 +637,9 @@ func TestCheck(t *testing.T) {
 			stressCase(idx, r)
 		}
 	})
+}
+
+// bubble runs f in a synctest bubble; a bubble that cannot end (goroutines left blocked) is recorded, not fatal.
+func bubble(t *testing.T, f func(*testing.T)) {
+	rt.Bubble(func() { synctest.Test(t, f) }, "C02")
 }
